@@ -114,6 +114,13 @@ def gen_timer(repo):
         if (isinstance(n, ast.Lambda) and isinstance(n.body, ast.Compare) and len(n.body.ops) == 1
                 and isinstance(n.body.ops[0], ast.NotIn)):
             skips = _state_names(n.body.comparators[0], f'{SCHED}:defer filter')
+        # the same skip written as a guard at the top of the loop: `if t.get('status') in [..]: continue`
+        if (isinstance(n, ast.For) and n.body and isinstance(n.body[0], ast.If) and not n.body[0].orelse
+                and len(n.body[0].body) == 1 and isinstance(n.body[0].body[0], ast.Continue)
+                and isinstance(n.body[0].test, ast.Compare) and len(n.body[0].test.ops) == 1
+                and isinstance(n.body[0].test.ops[0], ast.In) and isinstance(n.target, ast.Name)
+                and ast.unparse(n.body[0].test.left) == f"{n.target.id}.get('status')"):
+            skips = _state_names(n.body[0].test.comparators[0], f'{SCHED}:defer guard')
     if armed is None or skips is None:
         raise Untranslatable(f'{SCHED}:defer: filter / armed status not found')
     # paused retry
